@@ -10,7 +10,7 @@ from typing import TYPE_CHECKING
 # Third Party Imports
 from numpy import concatenate
 from scipy.linalg import norm
-from sqlalchemy import asc
+from sqlalchemy import asc, func
 from sqlalchemy.orm import Query
 
 # Local Imports
@@ -223,7 +223,7 @@ class LambertIOD(InitialOrbitDetermination):
             .filter(Observation.julian_date <= current_jdate)
             .filter(Observation.julian_date >= start_jdate)
             .filter(
-                Observation.sensor_type != SensorLabel.OPTICAL,
+                func.lower(Observation.sensor_type) != SensorLabel.OPTICAL.value,
             )  # Only Radar/AdvRadar Obs for Lambert IOD
             .order_by(asc(Observation.julian_date))
         )
